@@ -1,9 +1,12 @@
 // Native replay for C02 against the REAL STIR libraries of /repo's working tree.
 // usage: c02_replay range            out-of-range requests must be reported as errors and touch no bin
+//        c02_replay header <dir>     header + data written with several segment orders read back with equal geometry and values (needs STIR_CONFIG_DIR)
 //        c02_replay paths            values written through one access path are read back through the others, nothing else changes
 // exit 0: property holds on everything tried; exit 1 + "CONFIRMED ..." line: violated
 #include "stir/ProjDataInMemory.h"
 #include "stir/ProjDataFromStream.h"
+#include "stir/ProjDataInterfile.h"
+#include "stir/ProjData.h"
 #include "stir/ProjDataInfo.h"
 #include "stir/ExamInfo.h"
 #include "stir/Scanner.h"
@@ -145,9 +148,48 @@ static int paths(PD& pd, const char* cls)
   return 0;
 }
 
+// header + data written through ProjDataInterfile with a given segment order in the stream read back with equal geometry and values
+static int header(const char* dir)
+{
+  shared_ptr<ProjDataInfo> info = make_info();
+  shared_ptr<ExamInfo> exam(new ExamInfo);
+  exam->imaging_modality = ImagingModality::PT;
+  const std::vector<std::vector<int>> seqs = { { -2, -1, 0, 1, 2 }, { 0, 1, -1, 2, -2 }, { 1, -2, 0, 2, -1 }, { 2, 1, 0, -1, -2 } };
+  int n = 0;
+  for (auto& seq : seqs)
+    for (int order = 0; order < 2; ++order)
+      {
+        const std::string filename = std::string(dir) + "/c02_hdr_" + std::to_string(n++);
+        Ref ref;
+        {
+          ProjDataInterfile out(exam, info, filename, std::ios::in | std::ios::out | std::ios::trunc, seq,
+                                order ? ProjDataFromStream::Segment_View_AxialPos_TangPos : ProjDataFromStream::Segment_AxialPos_View_TangPos);
+          ref = fill(out);
+        }
+        shared_ptr<ProjData> in = ProjData::read_from_file(filename + ".hs");
+        const ProjDataInfo& pi = *in->get_proj_data_info_sptr();
+        for (int s = info->get_min_segment_num(); s <= info->get_max_segment_num(); ++s)
+          if (pi.get_num_axial_poss(s) != info->get_num_axial_poss(s))
+            {
+              std::printf("CONFIRMED segment order {%d,%d,%d,%d,%d} in the stream: segment %d was written with %d axial positions and has %d after reading the header back\n",
+                          seq[0], seq[1], seq[2], seq[3], seq[4], s, info->get_num_axial_poss(s), pi.get_num_axial_poss(s));
+              return 1;
+            }
+        if (!(pi == *info)) { std::printf("CONFIRMED segment order {%d,...}: geometry read back differs from the one written\n", seq[0]); return 1; }
+        ProjDataInMemory mem(*in);
+        if (!snapshot_equal(mem, ref, "values read back from file")) return 1;
+      }
+  return 0;
+}
+
 int main(int argc, char** argv)
 {
   if (argc < 2) return 2;
+  if (!strcmp(argv[1], "header"))
+    {
+      try { const int rc = header(argc > 2 ? argv[2] : "."); if (!rc) std::printf("REPLAY ok\n"); return rc; }
+      catch (...) { std::printf("exception\n"); return 3; }
+    }
   try
     {
       shared_ptr<ProjDataInfo> info = make_info();
